@@ -461,6 +461,9 @@ impl FromStr for Datetime {
 
                 let hours = h1 * 10 + h2;
                 let minutes = m1 * 10 + m2;
+                if hours > 23 || minutes > 59 {
+                    return Err(DatetimeParseError {});
+                }
 
                 let total_minutes = sign * (hours * 60 + minutes);
 
